@@ -60,6 +60,27 @@ PLANS = {
         assumptions=['trailing spaces are compared modulo right-stripping (the statement allows their removal, it does not demand it)',
                      'blank output pieces are not attributed to a source line'],
     ),
+    'C11': dict(
+        fams=[('c11', dict(quick=3000, thorough=60000), {})],
+        mc=[MC_BLOCK],
+        nontrivial=lambda rec: len(rec.get('runs', [])) == 3 and rec['runs'][1]['res']['k'] != rec['runs'][2]['res']['k'] or any(r['res']['k'] == 'ok' and any(sw > r['w'] for sw in r['res']['sw']) for r in rec.get('runs', [])),
+        rule='each case = three runs (d,0,o), (d,w,o), (d,w,o+overflow) on grammar documents and byte mutations, widths 1..60, random option mixes; non-trivial = the base run fails while the overflow run succeeds, or some line overflows the width; distinct by sha256(runs)',
+        assumptions=['the line bound uses P(d) computed in TLA+ from the harness DOM and the observed decorator strings; footnote lines are bounded only when links are wrappable'],
+    ),
+    'C13': dict(
+        fams=[('c13', dict(quick=3000, thorough=60000), {})],
+        mc=[MC_WRAP],
+        nontrivial=lambda rec: any(r['res']['k'] == 'ok' and len(r['res']['lines']) >= 2 for r in rec.get('runs', [])),
+        rule='each case = a table-free, pre-free grammar document and a source-level rewrite of it (whitespace-run substitution, comments next to whitespace, span wrapping of inline runs that contain a word, newlines/indentation between the blocks of an element that has visible content), same width 1..100 and configuration; MC_Wrap checks idempotence/interchangeability of collapsible whitespace on every state; non-trivial = Ok with >= 2 lines; distinct by sha256(runs)',
+        assumptions=['rewrite (d) treats as blocks only what the library lays out as blocks; white space is never inserted into an element without visible content (known finding ws-only-block)'],
+    ),
+    'C15': dict(
+        fams=[('c15', dict(quick=4000, thorough=80000), {})],
+        mc=[],
+        nontrivial=lambda rec: len(rec.get('runs', [])) == 2 and rec['runs'][0]['res'] != rec['runs'][1]['res'],
+        rule='each case = (d,w,base) and (d,w,base+o) for o in {max_wrap_width(m), pad_block_width, unicode_strikeout(false), no_table_borders, raw_mode, link_footnotes(false), no_link_wrapping, min_wrap_width(k)}; half of the documents have nothing the option applies to; non-trivial = the two results differ; distinct by sha256(runs)',
+        assumptions=['the per-option relation is the one written next to P_C15 in spec/Props.tla'],
+    ),
     'C03': dict(
         fams=[('c03', dict(quick=3000, thorough=60000), {})],
         mc=[MC_WRAP_MARKS, MC_BLOCK],
@@ -167,20 +188,22 @@ def run_check(prop, tier, seed, t0, no_mc=False):
     # sampled replay of random cases through the full model (binding impl -> spec; drift, not verdict)
     n_model = plan.get('model_sample', dict(quick=150, thorough=3000))[tier]
     model_checked = 0
+    model_idx = []
     if n_model and plan.get('model_ok', True):
         n_mc_cases = n_canon + mc_info['behaviours']
         sp = os.path.join(wd, 'model.trace')
         with open(trace_path) as f, open(sp, 'w') as g:
             for i, l in enumerate(f):
-                if i >= n_mc_cases and model_checked < n_model:
+                # table-heavy / mutated giants are slow in the interpreter: only modest cases
+                if i >= n_mc_cases and model_checked < n_model and len(l) < 20000:
                     g.write(l)
+                    model_idx.append(i)
                     model_checked += 1
         if model_checked:
-            mj, mbad, mstates, mwall = vlib.judge(sp, prop, module='TraceModel')
+            mj, mbad, mstates, mwall = vlib.judge(sp, prop, module='TraceModel', max_cases=20)
             tstates += mstates
-            first = n_mc_cases
             for i, _ in mbad:
-                drift.append(cases[first + i].get('id'))
+                drift.append(cases[model_idx[i]].get('id'))
             n_pred += model_checked
             log('[model] %d random cases replayed through the model, %d drift (%.1fs TLC)' % (model_checked, len(mbad), mwall))
 
